@@ -84,6 +84,10 @@ def base_isa(draw):
         'brxe': {'bytecode': {'value': draw(st.integers(0, 63)), 'size': 6}, 'operands': {'count': 2, 'operand_sets': {'list': ['regs', 'rele']}}},
     }
     if draw(st.booleans()):
+        # mov also exists with one operand
+        instrs['mov']['variants'] = [{'bytecode': {'value': draw(st.integers(0, 15)), 'size': 4},
+                                      'operands': {'count': 1, 'operand_sets': {'list': ['regs']}}}]
+    if draw(st.booleans()):
         instrs['br']['operands']['operand_sets'] = {'list': ['rel']}
         SETS_rel = copy.deepcopy(SETS)
     return {'general': general, 'operand_sets': copy.deepcopy(SETS), 'instructions': instrs}
@@ -100,6 +104,20 @@ def _macro_variant(draw, nops_choices=(0, 1, 1, 2, 2), like=None, allow_bad=True
         nops = len(osets)
         if 'operands' in like:
             v['operands'] = copy.deepcopy(like['operands'])
+    elif draw(st.integers(0, 5)) == 0:
+        # listed combinations only, naming different registers in the same position (optionally followed by an operand
+        # that is left out): @REG and @OP of that position differ from invocation to invocation
+        regs = draw(st.lists(st.sampled_from(['a', 'x', 'hl']), min_size=2, max_size=3, unique=True))
+        with_empty = draw(st.booleans())
+        combos = {}
+        for i, r in enumerate(regs):
+            lst = {'r': {'type': 'register', 'register': r, 'bytecode': {'value': i, 'size': 2}}}
+            if with_empty:
+                lst['e'] = {'type': 'empty', 'bytecode': {'value': 0, 'size': 1}}
+            combos['s_' + r] = {'list': lst}
+        v['operands'] = {'count': 2 if with_empty else 1, 'specific_operands': combos}
+        osets = ['regs'] + (['empty'] if with_empty else [])
+        nops = len(osets)
     elif nops == 0 and draw(st.integers(0, 3)) == 0:
         # a listed combination whose only member is an 'empty' operand: invoked without operands
         v['operands'] = {'count': 1, 'specific_operands': {'none': {'list': {'e': {'type': 'empty', 'bytecode': {'value': 1, 'size': 2}}}}}}
@@ -153,7 +171,12 @@ def _macro_variant(draw, nops_choices=(0, 1, 1, 2, 2), like=None, allow_bad=True
                     slots.append(f'@ARG({i})')
                 else:
                     slots.append(draw(st.sampled_from(['a', 'x', '[hl]', '[hl + 2]', '77', '@hl'])))
-        steps.append(mn + (' ' + ', '.join(slots) if slots else ''))
+        if 'empty' in osets and len(slots) == 2 and draw(st.booleans()):
+            # the operand that is left out, forwarded as the last operand of a step
+            slots[-1] = f"@OP({osets.index('empty')})"
+            if draw(st.booleans()):
+                slots[0] = '@OP(0)'
+        steps.append(mn + (' ' + draw(st.sampled_from([', ', ','])).join(slots) if slots else ''))
     if bad and nops:
         i = draw(st.integers(0, nops))          # index == nops is out of range
         ph = draw(st.sampled_from([f'@REG({i})', f'@ARG({i})', f'@OP({i})']))
@@ -197,7 +220,14 @@ def _cases(draw, tier):
             ops = []
             for sname in ((mv.get('operands') or {}).get('operand_sets') or {}).get('list', []):
                 ops.append(draw(_operand(sname, labels)))
+            spec = (mv.get('operands') or {}).get('specific_operands') or {}
+            named = sorted(c['list']['r']['register'] for c in spec.values() if 'r' in c['list'])
+            if named and 'operand_sets' not in mv['operands']:
+                ops = [{'k': 'reg', 'r': draw(st.sampled_from(named)), 'deco': None}]
             body.append({'t': 'macro', 'mn': mname, 'ops': ops})
+            if named and 'operand_sets' not in mv['operands'] and draw(st.booleans()):
+                # the same macro again with another of the listed registers
+                body.append({'t': 'macro', 'mn': mname, 'ops': [{'k': 'reg', 'r': draw(st.sampled_from(named)), 'deco': None}]})
             if ops and draw(st.integers(0, 2)) == 0:
                 ops2 = [isagen.twin_operand(o, twins) for o in ops]
                 if ops2 != ops:
@@ -276,6 +306,11 @@ def expand_invocation(isa, item):
         s = tmpl
         for n, (aid, alt, op) in enumerate(matched):
             kind = alt['type']
+            if kind == 'empty':
+                if f'@ARG({n})' in s or f'@REG({n})' in s:
+                    raise Unfillable('@ARG/@REG of an operand that is left out')
+                s = s.replace(f'@OP({n})', '')      # the full text of an operand that is not there
+                continue
             if f'@ARG({n})' in s:
                 if kind in ('numeric', 'relative_address', 'address', 'indirect_numeric', 'deferred_numeric'):
                     arg = exprs.render(op['e']).strip()
